@@ -18,8 +18,8 @@ TSchemes == {"becke", "stratmann"}
 Rec == Recs[i]
 Ev == Rec.events[l]
 IsEvent(name) == i <= Len(Recs) /\ l <= Len(Rec.events) /\ Ev.ev = name /\ l' = l + 1 /\ i' = i
-OK == [attrs |-> TRUE, classes |-> TRUE, gridobj |-> TRUE, niobj |-> TRUE, gen |-> TRUE, sdmx |-> TRUE,
-       outcome |-> TRUE, who |-> TRUE, grad |-> TRUE]
+OK == [attrs |-> TRUE, classes |-> TRUE, gridobj |-> TRUE, niobj |-> TRUE, gen |-> TRUE, sdmx |-> TRUE, genstale |-> TRUE, sdmxstale |-> TRUE,
+       outcome |-> TRUE, evaloutcome |-> TRUE, who |-> TRUE, grad |-> TRUE]
 TInit == Init /\ i = 1 /\ l = 1 /\ obs = OK
 
 \* judge the logged post-state projection P against the primed specification state
@@ -37,7 +37,13 @@ Judge(P) ==
      !.sdmx    = (ks'.decorated =>
                     /\ P.sdmxpresent = (ni'.sdmx # None)
                     /\ ((ks.decorated /\ ni.sdmx # None /\ ni'.sdmx # None /\ ni'.oid = ni.oid) => (P.sdmxsame = (ni'.sdmx.serial = ni.sdmx.serial)))),
+     \* a generator object the implementation KEPT although the specification replaces it is stale by construction
+     !.genstale = ((ks.decorated /\ ks'.decorated /\ ni.gen # None /\ ni'.gen # None /\ ni'.oid = ni.oid /\ P.genpresent /\ P.gensame)
+                     => ni'.gen.serial = ni.gen.serial),
+     !.sdmxstale = ((ks.decorated /\ ks'.decorated /\ ni.sdmx # None /\ ni'.sdmx # None /\ ni'.oid = ni.oid /\ P.sdmxpresent /\ P.sdmxsame)
+                     => ni'.sdmx.serial = ni.sdmx.serial),
      !.outcome = (P.err = err'),
+     !.evaloutcome = ((Ev.ev = "NrCall" /\ err' = "ok") => P.err = "ok"),
      !.who     = /\ P.spin = ks'.spin /\ P.df = ks'.df /\ P.mol = ks'.mol /\ P.gmol = grids'.mol]
 
 TConfigure == IsEvent("Configure") /\ Configure(Ev.spin, Ev.level, Ev.scheme) /\ Judge(Ev.post)
@@ -79,6 +85,9 @@ IntegratorReplacedIffSpec == obs.niobj
 NLDFGeneratorAsSpecified == obs.gen        \* present / re-created exactly when the specification says so
 SDMXGeneratorAsSpecified == obs.sdmx
 OutcomeAsSpecified == obs.outcome          \* exception class of the call
+\* the two verdicts that bear on the ANSWERS (C09); the others say that the code still follows this specification
+GeneratorNotStale == obs.genstale /\ obs.sdmxstale     \* no generator survives a change the specification re-creates it for
+EvaluationSucceeds == obs.evaloutcome                  \* an evaluation the specification performs does not raise
 OwnerAsSpecified == obs.who                \* spin treatment, density fitting, molecule of ks and of its grids
 GradClassAsSpecified == obs.grad
 Track == TLCSet(1, <<i, l>>)
